@@ -202,6 +202,9 @@ class Worker(object):
         env['PYTHONHASHSEED'] = str(hashclass if hashseed is None else hashseed)
         env['VERIF_REPO'] = repo_path()
         env.pop('PYTHONPATH', None)
+        # never trust byte-code caches lying around in the repository: compile from the sources
+        env['PYTHONPYCACHEPREFIX'] = os.path.join(VERIF_DIR, '.no-pycache')
+        env['PYTHONDONTWRITEBYTECODE'] = '1'
         self.proc = subprocess.Popen(
             [PYTHON, '-B', os.path.join(SIM_DIR, 'worker.py')],
             stdin=subprocess.PIPE, stdout=subprocess.PIPE, env=env, cwd=VERIF_DIR)
